@@ -80,7 +80,7 @@ func (t *tr) emitFn(F *fn) (err error) {
 		} else {
 			n = e.declare(p)
 		}
-		params = append(params, fmt.Sprintf("(%s : %s)", n, leanType(p.Type())))
+		params = append(params, fmt.Sprintf("(%s : %s)", n, F.paramLeanType(p)))
 	}
 	var rts []string
 	for _, v := range F.inout {
@@ -111,6 +111,18 @@ func (t *tr) emitFn(F *fn) (err error) {
 	lines = append(lines, head)
 	mut := t.mutatedParams(F)
 	for _, p := range pobjs {
+		if F.bigNilTested(p) {
+			// a *big.Float parameter compared with nil is an Option (bigfloat.go): name "the argument
+			// was nil" and the object it points to
+			n := e.names[p]
+			lines = append(lines, fmt.Sprintf("  let %s : Bool := Go.BigFloat.isNil %s", e.declareNilFlag(p), n))
+			kw := "let"
+			if mut[p] {
+				kw = "let mut"
+			}
+			lines = append(lines, fmt.Sprintf("  %s %s : %s := Go.BigFloat.ofPtr %s", kw, n, leanType(p.Type()), n))
+			continue
+		}
 		if mut[p] {
 			n := e.names[p]
 			lines = append(lines, fmt.Sprintf("  let mut %s : %s := %s", n, leanType(p.Type()), n))
@@ -333,11 +345,17 @@ func (t *tr) write(dir string) {
 		if F.text {
 			f += "Text"
 		}
-		if F.big {
+		if F.bigFloat {
+			f += "BigFloat" // big.Float layer (bigfloat.go)
+		} else if F.big {
 			f += "Big"
 		}
 		if F.usesFloat {
-			f += "Float"
+			if F.big {
+				f += "F64" // <File>BigFloat is taken by big.Float; no function mixes math/big and float64
+			} else {
+				f += "Float"
+			}
 		}
 		return f + ".go"
 	}
@@ -408,7 +426,9 @@ func (t *tr) write(dir string) {
 		placedG[g] = put(g.file, deps, g.lines, "")
 	}
 	visiting := map[*fn]bool{}
-	bigFile := map[string]bool{} // module files of the math/big layer: they import Go/Big.lean
+	bigFile := map[string]bool{}      // module files of the math/big layer: they import Go/Big.lean
+	bigFloatFile := map[string]bool{} // … of its big.Float part: they import Go/BigFloat.lean
+	f64File := map[string]bool{}      // modules of functions that mention float64/float32: Go/Float.lean
 	placeF = func(F *fn) {
 		if placedF[F] != nil {
 			return
@@ -438,8 +458,13 @@ func (t *tr) write(dir string) {
 			placeG(g)
 			deps = append(deps, placedG[g])
 		}
-		if F.big {
+		if F.bigFloat {
+			bigFloatFile[modFile(F)] = true
+		} else if F.big {
 			bigFile[modFile(F)] = true
+		}
+		if F.usesFloat {
+			f64File[modFile(F)] = true
 		}
 		placedF[F] = put(modFile(F), deps, F.lines, F.name)
 		visiting[F] = false
@@ -461,7 +486,13 @@ func (t *tr) write(dir string) {
 		}
 	}
 	for _, it := range items {
-		if it.F != nil && it.F.big {
+		if it.F != nil && it.F.big && !it.F.bigFloat {
+			placeF(it.F)
+		}
+	}
+	// Fourth pass: the big.Float part of the math/big layer (bigfloat.go).
+	for _, it := range items {
+		if it.F != nil && it.F.bigFloat {
 			placeF(it.F)
 		}
 	}
@@ -469,11 +500,14 @@ func (t *tr) write(dir string) {
 	for _, m := range mods {
 		var b strings.Builder
 		b.WriteString(header + "import D128.Gen.Types\n")
-		if strings.HasSuffix(m.file, "Float.go") {
+		if f64File[m.file] {
 			b.WriteString("import D128.Go.Float\n")
 		}
 		if bigFile[m.file] {
 			b.WriteString("import D128.Go.Big\n")
+		}
+		if bigFloatFile[m.file] {
+			b.WriteString("import D128.Go.BigFloat\n")
 		}
 		var ds []string
 		for d := range m.deps {
@@ -508,6 +542,8 @@ func (t *tr) write(dir string) {
 		// model returns the value only)
 		BigNilDefaulted []string `json:"big_nil_defaulted_params,omitempty"`
 		BigStored       []string `json:"big_args_stored,omitempty"`
+		// big.Float: parameters compared with nil (an Option in Lean; the token "nil" is `none`)
+		BigNilTested []string `json:"big_nil_tested_params,omitempty"`
 	}
 	var rep struct {
 		Functions []frep            `json:"functions"`
@@ -519,6 +555,11 @@ func (t *tr) write(dir string) {
 		if F.skip == "" {
 			r.Unmodelled, r.Dropped = F.unmodelled, F.dropped
 			r.BigNilDefaulted, r.BigStored = F.bigReport()
+			if F.bigInf != nil {
+				for _, v := range F.bigInf.nilTestSeq {
+					r.BigNilTested = append(r.BigNilTested, v.Name())
+				}
+			}
 		}
 		if m := placedF[F]; m != nil {
 			r.Module = m.name
